@@ -229,6 +229,8 @@ impl BinArchive {
 
         let mut archive = BinArchive::new(endian);
         cursor.seek(SeekFrom::Start(0x20))?;
+        #[cfg(mila_verif)]
+        crate::verif_support::note_alloc(data_size as usize);
         archive.data.resize(data_size as usize, 0);
         cursor.read_exact(&mut archive.data)?;
         for _ in 0..pointer_count {
